@@ -2,8 +2,11 @@
    A scenario is one line of space-separated tokens:
      o:D | o:N | o:V<t> | o:R<ast>~<pcre hex> | o:FC | o:FT | o:X<bit>     handler objects, numbered 0..
      p:<i>,<i>,...                                                          pipelines (object numbers)
-     m:<pipeline>:<type>:<flags>:<text>                                     messages; text = hex UTF-16
-                                                                            units (4 digits each), '-' = null QString
+     m:<pipeline>:<type>:<flags>:<text>[:<thread>]                          messages; text = hex UTF-16
+                                                                            units (4 digits each), '-' = null QString;
+                                                                            <thread> = which harness thread constructs and
+                                                                            sends the message (0 = main); the model ignores
+                                                                            it: the rules are about the sequence a handler sees
    <t> / <type> = numeric QtMsgType (0 debug 1 warning 2 critical 3 fatal 4 info).
    <ast> (prefix form): e  ^  $  .  c<hex>;  [<0|1><lo>-<hi>,...;  *X  +X  ?X  &XY  |XY
    Observations: per message the handler calls in order, "1"/"0" = verdict, "1=<n>" = sequence
@@ -63,7 +66,7 @@ let parse_scenario (line : string) : scenario =
     | 'p' -> ps := List.filter_map (fun x -> if x = "" then None else Some (nat_of_int (int_of_string x)))
                      (String.split_on_char ',' body) :: !ps
     | 'm' -> (match String.split_on_char ':' body with
-        | [p; t; fl; tx] -> ms := (nat_of_int (int_of_string p),
+        | p :: t :: fl :: tx :: _ -> ms := (nat_of_int (int_of_string p),
                                    { mt = mt_of (int_of_string t); text = units tx; flags = n_of_int (int_of_string fl);
                                      fmt = None; attrs = [] }) :: !ms
         | _ -> failwith "message")
